@@ -12,6 +12,9 @@ package main
 
 import (
 	"bytes"
+	"crypto/ed25519"
+	"crypto/elliptic"
+	"math/big"
 	"encoding/base64"
 	"encoding/json"
 	"errors"
@@ -23,6 +26,7 @@ import (
 
 	"github.com/btcsuite/btcutil/base58"
 
+	"github.com/hyperledger/aries-framework-go/component/kmscrypto/doc/util/fingerprint"
 	"github.com/hyperledger/aries-framework-go/component/models/did"
 	"github.com/hyperledger/aries-framework-go/component/storageutil/mem"
 	"github.com/hyperledger/aries-framework-go/pkg/common/log"
@@ -1185,15 +1189,61 @@ type RouteOp struct {
 	Form   string   `json:"form,omitempty"` // object | string
 }
 
-// key strings of the route cases: prefixes of one another, case variants, base58 and DID-URL forms
-var routeKeys = []string{
-	"did:key:z6MkpTHR8VNsBxYAAWHut2Geadd9jSwuBV8xRoAnwWsdvktH",
-	"did:key:z6MkpTHR8VNsBxYAAWHut2Geadd9jSwuBV8xRoAnwWsdvkt",
-	"did:key:z6MkpTHR8VNsBxYAAWHut2Geadd9jSwuBV8xRoAnwWsdvktHx",
-	"did:key:z6mkpthr8vnsbxyaawhut2geadd9jswubv8xroanwwsdvkth",
-	"HsseyXn45C7VE1dF2YU1TzCbyhSQUyh9AxMyYy5ey813",
-	"did:example:c1#key-1",
-	"did:example:c1#key-11",
+// key strings of the route cases, with the notation each is in the model (rkey).  Related keys on purpose: the same 32
+// bytes as an Ed25519 did:key, as an X25519 did:key and in raw base58; the P-256 points (x, y) and (x, -y); a key with a
+// fragment appended, in lower case, without its last character; independent keys; DID URLs one a prefix of the other.
+var (
+	routeKeys   []string
+	routeKeyCoq []string
+)
+
+func init() {
+	add := func(s, coq string) {
+		routeKeys = append(routeKeys, s)
+		routeKeyCoq = append(routeKeyCoq, coq)
+	}
+
+	seed := func(b byte) []byte {
+		x := make([]byte, 32)
+		for i := range x {
+			x[i] = b + byte(i)*7
+		}
+
+		return x
+	}
+
+	x1 := []byte(ed25519.NewKeyFromSeed(seed(14)).Public().(ed25519.PublicKey))
+	x2 := []byte(ed25519.NewKeyFromSeed(seed(41)).Public().(ed25519.PublicKey))
+	ed1, fp1 := fingerprint.CreateDIDKeyByCode(fingerprint.ED25519PubKeyMultiCodec, x1)
+	xk1, _ := fingerprint.CreateDIDKeyByCode(fingerprint.X25519PubKeyMultiCodec, x1)
+	ed2, _ := fingerprint.CreateDIDKeyByCode(fingerprint.ED25519PubKeyMultiCodec, x2)
+
+	px, py := elliptic.P256().ScalarBaseMult(seed(99))
+	ny := new(big.Int).Sub(elliptic.P256().Params().P, py)
+	p1, _ := fingerprint.CreateDIDKeyByCode(fingerprint.P256PubKeyMultiCodec, elliptic.MarshalCompressed(elliptic.P256(), px, py))
+	p2, _ := fingerprint.CreateDIDKeyByCode(fingerprint.P256PubKeyMultiCodec, elliptic.MarshalCompressed(elliptic.P256(), px, ny))
+	sign := func(y *big.Int) int { return 2 + int(y.Bit(0)) }
+
+	add(ed1, "(RDidKey 237 1 0)")
+	add(xk1, "(RDidKey 236 1 0)")
+	add(base58.Encode(x1), "(RB58 1)")
+	add(p1, fmt.Sprintf("(RDidKey 4608 2 %d)", sign(py)))
+	add(p2, fmt.Sprintf("(RDidKey 4608 2 %d)", sign(ny)))
+	add(ed1+"#"+fp1, "(RStr 1)")
+	add(strings.ToLower(ed1), "(RStr 2)")
+	add(ed1[:len(ed1)-1], "(RStr 3)")
+	add(ed2, "(RDidKey 237 3 0)")
+	add(base58.Encode(x2), "(RB58 3)")
+	add("did:example:c1#key-1", "(RStr 4)")
+	add("did:example:c1#key-11", "(RStr 5)")
+}
+
+func coqRKey(i int) string {
+	if i < 1 || i > len(routeKeyCoq) {
+		return "(RStr 0)" // a string that is none of the alphabet's
+	}
+
+	return routeKeyCoq[i-1]
 }
 
 var routeClients = []int{1, 2, 11}
@@ -1412,7 +1462,7 @@ func (p *pool) runRoute(kind string, ops []RouteOp, tr *hx.Trace) {
 		case "update":
 			var ups []string
 			for _, u := range op.Ups {
-				ups = append(ups, fmt.Sprintf("(%s, %d)", []string{"AAdd", "ARemove", "AOther"}[u[0]], u[1]))
+				ups = append(ups, fmt.Sprintf("(%s, %s)", []string{"AAdd", "ARemove", "AOther"}[u[0]], coqRKey(u[1])))
 			}
 
 			f := "None"
@@ -1422,7 +1472,7 @@ func (p *pool) runRoute(kind string, ops []RouteOp, tr *hx.Trace) {
 
 			cops = append(cops, fmt.Sprintf("RUpdate %d %s %s %s", op.Client, hx.CoqList(ups), f, hx.CoqBool(op.SendOK)))
 		default:
-			cops = append(cops, fmt.Sprintf("RForward %d %d %s %s", op.To, op.Msg, hx.CoqBool(op.SendOK), hx.CoqBool(op.FGet)))
+			cops = append(cops, fmt.Sprintf("RForward %s %d %s %s", coqRKey(op.To), op.Msg, hx.CoqBool(op.SendOK), hx.CoqBool(op.FGet)))
 		}
 
 		o := outs[i]
@@ -1431,7 +1481,7 @@ func (p *pool) runRoute(kind string, ops []RouteOp, tr *hx.Trace) {
 		case "resp":
 			var es []string
 			for _, e := range o.Entries {
-				es = append(es, fmt.Sprintf("(%d, %s, %s)", e[0], []string{"AAdd", "ARemove", "AOther"}[e[1]],
+				es = append(es, fmt.Sprintf("(%s, %s, %s)", coqRKey(e[0]), []string{"AAdd", "ARemove", "AOther"}[e[1]],
 					[]string{"RSuccess", "RServerError"}[e[2]]))
 			}
 
@@ -1569,7 +1619,8 @@ func randRoute(r *hx.Rng, n int) []RouteOp {
 	return ops
 }
 
-// all histories of the given length over a small alphabet (2 clients, 2 keys of which one is a prefix of the other)
+// all histories of the given length over a small alphabet (2 clients, 2 related keys: an Ed25519 and an X25519
+// did:key over the same bytes)
 func enumRoutes(n int, f func([]RouteOp)) {
 	var alpha []RouteOp
 
